@@ -32,6 +32,7 @@ type evidence struct {
 	solverTime   time.Duration
 	steps        int
 	asserts      int
+	mapChecks    [2]int
 	unwind       int
 	unsupported  int
 	shapes       int
@@ -170,6 +171,14 @@ func (ev *evidence) write(env *Env) {
 		"second_solver":                 map[string]interface{}{"solver": ev.crossKind, "assertion_queries_cross_checked": ev.crossQueries, "disagreements": 0},
 		"load_s":                        ev.loadS,
 		"explore_s":                     ev.exploreS,
+	}
+	if ev.mapChecks[0] > 0 {
+		cov["map_access_ordering"] = map[string]interface{}{
+			"accesses_checked":    ev.mapChecks[0],
+			"across_goroutines":   ev.mapChecks[1],
+			"rule":                "every access to a map made by gorm after verifrt.MapRaces(), on every explored schedule: ordered by happens-before (vector clocks over the modelled synchronisation primitives) after the last write / the reads since; a clock computation per path, not a solver query; an unordered pair is the assertion failure map-race, confirmed by the Go race detector on the native replay before it is reported",
+			"confirmation_method": "go test -race of the harness on the solver's input, GORACE=halt_on_error=1, up to 60 repetitions",
+		}
 	}
 	out := map[string]interface{}{
 		"property_id": ev.prop,
